@@ -1077,12 +1077,39 @@ def merged_variant(v1, v2):
     return (v1[0], d, v2[2])
 
 
+STRADDLE_WIDTHS = [47.6, 46.2, 30.4, 12.8, 21.25]
+
+
+def straddle_cases():
+    """Labels crowded at the very start of the axis with no (or a negative) lower position bound and fractional
+    widths: label centres land on both sides of zero, where rounding of positions and truncation of the drawn
+    coordinates act in opposite directions."""
+    for direction in DIRECTIONS:
+        for mn in (None, -100):
+            for w1 in STRADDLE_WIDTHS:
+                for w2 in STRADDLE_WIDTHS:
+                    # the default canvas gives an axis of length 360: with domain [0, 360] a datum sits at its time
+                    for times in ([0, 1], [0, 0.3], [0, 1.7], [0, 0.5, 1]):
+                        ws = [w1, w2, w1][: len(times)]
+                        yield {"data": [{"time": float(t), "width": w} for t, w in zip(times, ws)],
+                               "options": {"direction": direction, "scale": "linear", "domain": [0, 360],
+                                           "labella": {"minPos": mn, "nodeSpacing": 3}}}
+
+
 def explore(run, props):
     prop = sorted(props)[0]
     quick = run.tier == "quick"
     nv = len(VARIANTS)
     count = 0
     cut = False
+    ns = 0
+    for k, case in enumerate(straddle_cases()):
+        if quick and k % 2 and prop != "C08":
+            continue
+        one(run, props, case)
+        ns += 1
+    run.exhaustive("straddle-zero sub-scope: %d cases (2-3 labels at the axis start, fractional widths %s, minPos None/-100, "
+                   "4 directions)" % (ns, STRADDLE_WIDTHS))
     cells = [(d, k, s) for d in DIRECTIONS for k in KINDS for s in SHAPES]
     for direction, kind, shape in cells:
         for v in VARIANTS:
